@@ -22,6 +22,10 @@ pub struct Case {
     /// values the formulas give
     #[serde(default)]
     pub proof_repr: u8,
+    /// a request proved from tree state through a writer of the given behaviour (gens io style): the
+    /// values section of the message that reaches the writer must be the formulas' values
+    #[serde(default)]
+    pub tree_request: Option<(crate::pipeline::Req, u8)>,
 }
 
 #[derive(Clone, Copy, Debug, serde::Serialize, serde::Deserialize)]
@@ -60,7 +64,7 @@ impl Property for C04 {
         "C04"
     }
     fn rule(&self) -> String {
-        "witnesses (s, limit, m, 20 path elements, 20 direction bits, x, e) accepted by the circuit (m < limit <= 2^16), field values boundary-weighted, bit patterns weighted to all-0/all-1/alternating/single-1/single-0/random; three-way comparison proof_values_from_witness == BigUint formulas (reference Poseidon) == witness vector positions 1..5 of the bundled graph (y, root, nullifier, x, e), plus serialize_proof_values bytes == the formulas' values in the documented layout; 40% of the cases are followed back to back on the same thread by 1..3 related witnesses (another message id below the limit / another x / external nullifier / secret / the same) and by the first witness again; one witness in eight is evaluated from a caller buffer that held (and was evaluated as) a same-length sibling of the graph file just before; fixed part: 3 (thorough 30) witnesses whose full circuit vector, written with canonical / balanced / negative entries, goes through generate_proof_with_witness and must verify for the formulas' values. \
+        "witnesses (s, limit, m, 20 path elements, 20 direction bits, x, e) accepted by the circuit (m < limit <= 2^16), field values boundary-weighted, bit patterns weighted to all-0/all-1/alternating/single-1/single-0/random; three-way comparison proof_values_from_witness == BigUint formulas (reference Poseidon) == witness vector positions 1..5 of the bundled graph (y, root, nullifier, x, e), plus serialize_proof_values bytes == the formulas' values in the documented layout; 40% of the cases are followed back to back on the same thread by 1..3 related witnesses (another message id below the limit / another x / external nullifier / secret / the same) and by the first witness again; one witness in eight is evaluated from a caller buffer that held (and was evaluated as) a same-length sibling of the graph file just before; fixed part: 3 (thorough 30) witnesses whose full circuit vector, written with canonical / balanced / negative entries, goes through generate_proof_with_witness and must verify for the formulas' values; one request proved from tree state through each writer behaviour (everything at once, 1, 7, 33 bytes per call): the values section of what reaches the writer equals the formulas' values. \
          non-trivial = a direction bit set at level >= 8 or a boundary field value; distinct by case content".into()
     }
     fn assumptions(&self) -> Vec<String> {
@@ -81,9 +85,22 @@ impl Property for C04 {
             1 => gens::fx().prop_map(Follow::S),
             1 => Just(Follow::Same),
         ];
-        (valid_wit(), prop_oneof![3 => Just(vec![]).boxed(), 2 => proptest::collection::vec(follow, 1..4).boxed()]).prop_map(|(w, follow)| Case { w, follow, proof_repr: 0 }).boxed()
+        (valid_wit(), prop_oneof![3 => Just(vec![]).boxed(), 2 => proptest::collection::vec(follow, 1..4).boxed()]).prop_map(|(w, follow)| Case { w, follow, proof_repr: 0, tree_request: None }).boxed()
     }
     fn check(&self, ctx: &Ctx, c: &Case) -> Outcome {
+        if let Some((req, io)) = &c.tree_request {
+            // the published message itself: proved from tree state, written through a writer that
+            // accepts 1 / 7 / 33 bytes per call (or everything); C01's acceptance checks include
+            // "values section == formulas' values" and "root == ideal tree's root"
+            let mut o = Outcome::new();
+            o.label(format!("message-from-tree-state/io-style-{}", io % 4));
+            o.nontrivial = true;
+            gens::set_io_style(io % 4);
+            let c1 = crate::props::c01::Case { req: req.clone(), pre: vec![], post: vec![], entry: crate::props::c01::Entry::FromTree, place: crate::props::c01::Place::SetLeaf, second: None, variant: 0 };
+            crate::props::c01::run_case(&c1, &mut o);
+            gens::set_io_style(0);
+            return o;
+        }
         let mut o = check_one(ctx, &c.w);
         if !c.follow.is_empty() {
             o.label("sequence-of-related-witnesses");
@@ -116,9 +133,20 @@ impl Property for C04 {
     /// a few witnesses per run also go through the external-vector prover in each representation
     fn fixed_part(&self, ctx: &Ctx, stats: &mut Stats) -> Option<(String, Option<Case>)> {
         let n = ctx.tier.pick(3, 30);
+        // the message as it reaches a caller's writer, once per writer behaviour
+        let reqs = crate::pipeline::draw(&crate::pipeline::req_strategy(300), ctx.seed, "c04-tree-request", 1);
+        let any_w = crate::pipeline::draw(&valid_wit(), ctx.seed, "c04-any", 1);
+        for io in 0u8..4 {
+            let c = Case { w: any_w[0].clone(), follow: vec![], proof_repr: 0, tree_request: Some((reqs[0].clone(), io)) };
+            let out = self.check(ctx, &c);
+            stats.record(&out, case_hash(&c), || serde_json::json!({"message_from_tree_state": {"io_style": io, "index": reqs[0].index}}));
+            if let Some(m) = out.fail {
+                return Some((m, Some(c)));
+            }
+        }
         let ws = crate::pipeline::draw(&valid_wit(), ctx.seed, "c04-external", n);
         for (k, w) in ws.into_iter().enumerate() {
-            let c = Case { w, follow: vec![], proof_repr: (k % 3) as u8 + 1 };
+            let c = Case { w, follow: vec![], proof_repr: (k % 3) as u8 + 1, tree_request: None };
             let out = self.check(ctx, &c);
             stats.record(&out, case_hash(&c), || self.sample_view(&c));
             if let Some(m) = out.fail {
